@@ -133,6 +133,12 @@ impl Parser {
             }
 
             let ident_span = ident_node.as_span();
+
+            if ident_node.as_rule() != Rule::ident {
+                // a type node in name position: the implicit `self` parameter was given a type
+                bail!(new_err(ident_span, &file_name, "`self` is typed implicitly and does not take a type annotation".to_owned()))
+            }
+
             let mut ident = Self::ident(ident_node)?;
 
             let ty: Option<Node> = children.next();
